@@ -23,14 +23,18 @@ const T0 = int64(1700000000)
 var Net = ipfs.NewMemoryIpfsProxy()
 
 func init() {
-	verifhook.GoPolicy = func(site string) verifhook.GoMode {
-		switch {
-		case strings.Contains(site, "ceremony.go:handleFlipLotteryPeriod"),
-			strings.Contains(site, "ceremony.go:completeEpoch"):
-			return verifhook.GoInline
-		}
-		return verifhook.GoDrop
+	verifhook.GoPolicy = PolicyOf
+}
+
+// PolicyOf is the go-statement policy of the sequential explorers: the two ceremony
+// computations run inline, service loops never run.
+func PolicyOf(site string) verifhook.GoMode {
+	switch {
+	case strings.Contains(site, "ceremony.go:handleFlipLotteryPeriod"),
+		strings.Contains(site, "ceremony.go:completeEpoch"):
+		return verifhook.GoInline
 	}
+	return verifhook.GoDrop
 }
 
 // Open starts a replica on a copy of img whose node key is eligible to propose.
